@@ -338,6 +338,96 @@ func genTail(t *rapid.T) string {
 	return hex.EncodeToString(out)
 }
 
+// pointer fields of a base image: (offset, width) of every little-endian field inside a scanned structure whose value is
+// exactly the address of another scanned structure. Computed once per base.
+type ptrField struct {
+	Off, W int
+	Owner  int // index of the structure that holds the field
+}
+
+func (b *Base) pointers() []ptrField { return b.ptrs }
+
+func (b *Base) buildPointers() {
+	addr := map[uint64]bool{}
+	for _, st := range b.Structs {
+		if st.Off > 0 {
+			addr[uint64(st.Off)] = true
+		}
+	}
+	seen := map[int]bool{}
+	for si, st := range b.Structs {
+		n := st.Len
+		if n == 0 {
+			n = 320
+		}
+		if n > 1024 {
+			n = 1024
+		}
+		for d := 0; d+4 <= n && st.Off+d+4 <= len(b.Data); d++ {
+			o := st.Off + d
+			if seen[o] {
+				continue
+			}
+			if o+8 <= len(b.Data) {
+				if v := binary.LittleEndian.Uint64(b.Data[o:]); v >= 48 && addr[v] {
+					seen[o] = true
+					b.ptrs = append(b.ptrs, ptrField{o, 8, si})
+					continue
+				}
+			}
+			if v := uint64(binary.LittleEndian.Uint32(b.Data[o:])); v >= 48 && addr[v] && o+8 <= len(b.Data) && binary.LittleEndian.Uint32(b.Data[o+4:]) != 0 {
+				// a 4-byte address (files with 4-byte offsets)
+				seen[o] = true
+				b.ptrs = append(b.ptrs, ptrField{o, 4, si})
+			}
+		}
+	}
+}
+
+// genRedirect re-targets a pointer field: to the structure that holds it (self reference), to another structure of the
+// same kind as the holder (sibling / ancestor), or to any other structure. For B-tree nodes the node level is raised as
+// well half of the time, so that a redirected child is followed as a node.
+func genRedirect(t *rapid.T, b *Base) []Mut {
+	ps := b.pointers()
+	if len(ps) == 0 {
+		m, _ := genField(t, b, -1)
+		return []Mut{m}
+	}
+	p := ps[uni(t, "ptr", 0, len(ps)-1)]
+	owner := b.Structs[p.Owner]
+	var v uint64
+	vk := "redirect-self"
+	switch uni(t, "rk", 0, 3) {
+	case 0, 1:
+		v = uint64(owner.Off)
+		if strings.HasPrefix(owner.Kind, "msg:") {
+			// the enclosing object header or block: the nearest preceding non-message structure
+			for i := p.Owner; i >= 0; i-- {
+				if !strings.HasPrefix(b.Structs[i].Kind, "msg:") && b.Structs[i].Off <= owner.Off {
+					v = uint64(b.Structs[i].Off)
+					break
+				}
+			}
+			if uni(t, "selfmsg", 0, 1) == 1 {
+				v = uint64(owner.Off) // the message itself (a continuation block that starts at its own message)
+			}
+		}
+	case 2:
+		ix := b.byKind[owner.Kind]
+		v = uint64(b.Structs[ix[uni(t, "same", 0, len(ix)-1)]].Off)
+		vk = "redirect-samekind"
+	default:
+		o, _, _ := pickStruct(t, b, -1)
+		v = uint64(o.Off)
+		vk = "redirect-other"
+	}
+	out := []Mut{{K: "set", Off: p.Off, W: p.W, V: v & ones(p.W), At: fmt.Sprintf("%s+%d", owner.Kind, p.Off-owner.Off), VK: vk}}
+	if owner.Kind == "TREE" && uni(t, "lvl", 0, 1) == 1 {
+		out = append(out, Mut{K: "set", Off: owner.Off + 5, W: 1, V: uint64(uni(t, "level", 1, 3)), At: "TREE+5", VK: "small"})
+	}
+	return out
+}
+
 func (g *genEnv) gen(t *rapid.T) Case {
 	mode := uni(t, "mode", 0, 99)
 	if mode < 8 {
@@ -359,7 +449,10 @@ func (g *genEnv) gen(t *rapid.T) Case {
 	focus := nm > 1 && uni(t, "focus", 0, 1) == 1 // correlated corruptions: all field mutations in one neighbourhood
 	near := -1
 	for i := 0; i < nm; i++ {
-		if uni(t, "mk", 0, 99) < 65 {
+		mk := uni(t, "mk", 0, 99)
+		if mk < 12 {
+			c.Muts = append(c.Muts, genRedirect(t, b)...)
+		} else if mk < 68 {
 			m, idx := genField(t, b, near)
 			if focus && near < 0 {
 				near = idx
